@@ -22,6 +22,9 @@ def run(ctx):
     # TRACE: seeded wide-domain tracks
     cases = _notes.seeded_tracks(ctx, "C02", ctx.pick(400, 6000), unit_gap_p=0.3)
     _notes._judge(ctx, cases, "C02", "seeded tracks", max_skip_ratio=0.01)
+    # several instrument sections in one chart, each judged as if it were alone
+    cases = _notes.seeded_multi(ctx, "C02", ctx.pick(150, 2500), unit_gap_p=0.3)
+    _notes._judge_multi(ctx, cases, "C02", "seeded charts with several sections", max_skip_ratio=0.02)
     # "any number of ticks": a few very long sections (hundreds of kilobytes of text), one real parse each, judged in
     # windows of whole tick groups
     recs, owner = [], {}
